@@ -384,3 +384,85 @@ if __name__ == "__main__":
     import sys
     seed = int(sys.argv[1]) if len(sys.argv) > 1 else 1
     print("\n".join(history(seed)))
+
+
+# ---------------------------------------------------------------- C19: limits and misuse
+def c19_history(seed):
+    """returns (max_height, lines, family, info).  Families: chains around the height limit with
+    set_max_height_allowed at quiescent points; the same with binds; cycles through one or two binds;
+    nested stabilise from a node function or a handler; a bind returning a node of another state."""
+    rng = random.Random(seed)
+    fam = rng.choice(["limit", "limit", "limit", "limitbind", "cycle", "cycle", "nested", "foreign"])
+    L = []
+    if fam in ("limit", "limitbind"):
+        N = rng.randrange(1, 9)
+        L.append("var 1")
+        top, nh = 0, 1
+        nobs = 0
+        plan = []          # for the oracle (pure chains): ("stab", needed height) / ("setmax", M)
+
+        def grow(k):
+            nonlocal top, nh
+            for _ in range(k):
+                if fam == "limitbind" and rng.random() < 0.3:
+                    L.append(f"bind {top} {{ [] map 2 [] o{top} ; ret l0.0 | ret o{top} }}")
+                else:
+                    L.append(f"map 2 [] {top}")
+                top = nh
+                nh += 1
+        grow(max(0, N - 3 + rng.randrange(0, 5)))
+        L.append(f"observe {top}")
+        nobs += 1
+        L.append("stabilise")
+        plan.append(("stab", nh))
+        L.append(f"read {nobs - 1}")
+        for _ in range(rng.choice([0, 1, 2])):
+            M = max(1, N + rng.randrange(-3, 4))
+            L.append(f"setmaxheight {M}")
+            plan.append(("setmax", M))
+            grow(rng.randrange(0, 4))
+            L.append(f"observe {top}")
+            nobs += 1
+            L.append("stabilise")
+            plan.append(("stab", nh))
+            L.append(f"read {nobs - 1}")
+        return N, L, fam, plan
+    if fam == "cycle":
+        L.append(f"var {rng.randrange(3)}")
+        if rng.random() < 0.5:
+            # one bind: b = a.bind(|_| m), m = f(...f(b))
+            k = rng.choice([1, 2, 3])
+            L.append(f"bind 0 {{ [] ret t{1 + k} }}")
+            for i in range(k):
+                L.append(f"map 2 [] {1 + i}")
+            L.append(f"observe {1 + k}")
+        else:
+            # two binds: b1 returns a node above b2, b2 returns a node above b1
+            L.append("bind 0 { [] ret t4 }")
+            L.append("map 2 [] 1")
+            L.append("bind 0 { [] ret t2 }")
+            L.append("map 1 [] 3 3")
+            L.append("observe 4")
+        L.append("stabilise")
+        L.append("read 0")
+        L.append("stabilise")
+        return 128, L, fam, None
+    if fam == "nested":
+        L.append("var 1")
+        if rng.random() < 0.5:
+            L.append("map 2 [stabilise] 0")
+            L.append("observe 1")
+        else:
+            L.append("map 2 [] 0")
+            L.append("observe 1")
+            L.append("subscribe 0 0 [stabilise]")
+        L.append("stabilise")
+        L.append("read 0")
+        L.append("stabilise")
+        return 128, L, fam, None
+    L.append("var 1")
+    L.append("bind 0 { [] ret foreign }")
+    L.append("observe 1")
+    L.append("stabilise")
+    L.append("read 0")
+    return 128, L, fam, None
